@@ -7,6 +7,8 @@ import TetlProofs.C05.StrBits
 import TetlProofs.C05.StrIndex
 import TetlProofs.C05.CarriedAudit
 import TetlProofs.C05.Scalar
+import TetlProofs.C05.ToU
+import TetlProofs.C05.Unsafe
 namespace Tetl.C05.Props
 open Tetl.C05 Tetl.C05.Spec Tetl.C05.Lemmas
 
@@ -19,10 +21,9 @@ theorem sites_accounted : inventory = Carried.guardSites := by decide +kernel
 theorem model_keys_inventoried : Carried.modelKeys.all (fun k => (Carried.guardSites.map (·.1)).contains k) = true :=
   ca_all_keys
 
-/-- the sites carried without a model operation are the 2 internal checks of format_to and, since fix 3da0a12 of branch
-    fix-c17x, the "value fits" contract of bitset::to_ulong / to_ullong (modelled and proved for C17:
-    `Tetl.C17.Props.toUnsigned_eq`, `toUnsigned_overflow`) -/
-theorem unmodelled_count : Carried.unmodelled.length = 3 := ca_unmodelled
+/-- the sites carried without a model operation are the 2 internal checks of format_to (the "value fits" contract of
+    bitset::to_ulong / to_ullong is the model operation `bsToU`) -/
+theorem unmodelled_count : Carried.unmodelled.length = 2 := ca_unmodelled
 
 /-- operations whose equation model = spec is proved below: every operation of the model language (`Proved_all`).
     Kept as a function so that a new operation without a theorem has to be listed here explicitly. -/
@@ -40,7 +41,8 @@ def Proved : Op → Bool
   | .strCtorFill _ _ | .strOpAssign _ | .strAssignFill _ _ | .strFront _ | .strBack _ | .strAt _ _ | .strPop => true
   | .strCtorPtr _ _ | .strAssignPtr _ _ | .strPush _ | .strEraseRng _ _ | .strReplace _ _ _ _ | .strReplaceSub _ _ _ _ _ => true
   | .strInsert _ _ _ | .strInsertFill _ _ _ | .strEraseIdx _ _ => true
-  | .bb _ _ _ | .bs _ _ _ | .bsCtor _ _ _ | .nullChecks _ => true
+  | .bb _ _ _ | .bs _ _ _ | .bsCtor _ _ _ | .nullChecks _ | .bsToU _ => true
+  | .svMoveInsert _ _ _ _ | .svUnsafeSetSize _ _ | .svUnsafeDestroy _ _ | .ivUnsafeSetSize _ | .strUnsafeSetSize _ => true
   | .optDeref _ | .expDeref _ | .expError _ | .varIdx _ _ | .varGet _ _ => true
   | .bit _ _ _ | .divSat _ _ | .dayCtor _ | .monthCtor _ | .stride _ _ | .setCtor _ _ => true
 
@@ -55,6 +57,9 @@ instance (s : St) (pos count : Nat) : Decidable (ReplaceExcluded s pos count) :=
 /-- well-formedness of (configuration, object, operation): the class invariant `size ≤ capacity`, `size_t` arguments,
     the storage base of a static_vector matches its capacity, an engaged expected/variant holds exactly one object, the one-member chrono classes have room for their member, the bit position is a value of the word type, the operands of div_sat are `int` values,
     `array::operator[]` is only claimed where its check is compiled in (SAFE, or a zero-size array) or the index is valid,
+    the "unsafe" size members are claimed for a new size within the constructed elements or beyond the capacity (a size in
+    between exposes unconstructed storage) and `unsafe_destroy` for an empty range or a violating pointer (destroyed elements
+    cannot be read back), `to_ulong` / `to_ullong` need nothing,
     a freshly constructed static_vector is empty, the units inserted into an inplace_string fit (insert clamps silently
     otherwise), and the `replace` overloads are claimed outside the class of known finding F-C05-replace-pre
     (`ReplaceExcluded`) and without size_t wrap of `pos + count` / `pos2 + count2`. -/
@@ -63,9 +68,13 @@ def WF (cfg : Cfg) (s : St) : Op → Prop
   | .svBack _ => s.size < U64
   | .svPush st _ | .svEmplaceBack st _ => StorOk st s ∧ s.cap < U64
   | .svPop st | .svClear st | .svErase st _ | .svEraseRng st _ _ => StorOk st s
-  | .svInsertN st _ _ _ | .svInsertCr st _ _ | .svInsertMv st _ _ | .svEmplace st _ _ | .svInsertRng st _ _ _
+  | .svInsertN st _ _ _ | .svInsertCr st _ _ | .svInsertMv st _ _ | .svEmplace st _ _ | .svInsertRng st _ _ _ | .svMoveInsert st _ _ _
   | .svResize st _ | .svResizeV st _ _ | .svAssignN st _ _ | .svAssignRng st _ _ => StorOk st s ∧ s.cap < U64
   | .svCtorN st _ | .svCtorNV st _ _ | .svCtorRng st _ _ => StorOk st s ∧ s.cap < U64 ∧ s.elems = []
+  | .svUnsafeSetSize st n => StorOk st s ∧ (n ≤ s.size ∨ s.cap < n)
+  | .ivUnsafeSetSize n | .strUnsafeSetSize n => n ≤ s.size ∨ s.cap < n
+  | .svUnsafeDestroy f l => (0 ≤ f ∧ f ≤ (s.size : Int)) ∧ (0 ≤ l ∧ l ≤ (s.size : Int)) → f = l
+  | .bsToU _ => True
   | .arAt _ i => cfg.safe = true ∨ i < s.size ∨ s.size = 0
   | .strReplace _ pos count _ => ¬ ReplaceExcluded s pos count
   | .strReplaceSub pos count src pos2 count2 => (pos + count < U64 ∧ pos2 + count2 < U64) ∧ (pos ≠ s.size ∧ pos2 ≠ src.length)
@@ -142,6 +151,12 @@ theorem run_eq_expect (op : Op) (cfg : Cfg) (s : St) (_hp : Proved op = true) (h
   case bb w p v => exact bb_eq w p v cfg s
   case bs w p v => exact bs_eq w p v cfg s
   case bsCtor p n b => exact bsCtor_eq p n b cfg s
+  case bsToU d => exact bsToU_eq d cfg s
+  case svMoveInsert st p xs o => exact svMoveInsert_eq st p xs o cfg s h.1 h.2
+  case svUnsafeSetSize st n => exact svUnsafeSetSize_eq st n cfg s h.1 h.2
+  case svUnsafeDestroy f l => exact svUnsafeDestroy_eq f l cfg s h
+  case ivUnsafeSetSize n => exact ivUnsafeSetSize_eq n cfg s h
+  case strUnsafeSetSize n => exact strUnsafeSetSize_eq n cfg s h
   case nullChecks ks => exact nullChecks_eq ks cfg s
   case strCtorFill n ch => exact strCtorFill_eq n ch cfg s
   case strOpAssign xs => exact strOpAssign_eq xs cfg s
